@@ -143,6 +143,7 @@ class NormalDist(Distribution):
         if weights is None:
             weights = np.ones_like(mu)
         # self.scale is the variance; scipy's scale is the standard deviation
+        weights = np.asarray(weights, dtype='float64')  # fit() hands over float32 weights
         scale = (self.scale / weights) ** 0.5
         return sp.stats.norm.logpdf(y, loc=mu, scale=scale)
 
@@ -483,6 +484,7 @@ class GammaDist(Distribution):
         """
         if weights is None:
             weights = np.ones_like(mu)
+        weights = np.asarray(weights, dtype='float64')  # fit() hands over float32 weights
         nu = weights / self.scale
         return sp.stats.gamma.logpdf(x=y, a=nu, scale=mu / nu)
 
@@ -593,6 +595,7 @@ class InvGaussDist(Distribution):
         """
         if weights is None:
             weights = np.ones_like(mu)
+        weights = np.asarray(weights, dtype='float64')  # fit() hands over float32 weights
         gamma = weights / self.scale
         # scipy's invgauss(m, scale=s) has mean m * s and shape parameter s
         return sp.stats.invgauss.logpdf(y, mu / gamma, scale=gamma)
